@@ -57,6 +57,11 @@ pub enum Op {
     /// Script only: `Rc::downgrade` the `idx`-th handle still stored in the dying
     /// value (possibly a handle to a dying peer) and keep the Weak as program Weak `w`.
     SelfDowngradeSlot { idx: Id, w: Id },
+    /// Script only: the calls that ask "am I the only owner?" on the `idx`-th handle still
+    /// stored in the dying value (possibly a handle to a dying peer): `Rc::get_mut`,
+    /// `Rc::ptr_eq` with itself, `Rc::as_ptr`. None of them may hand out the value of a
+    /// destroyed object.
+    SelfGetMutSlot { idx: Id },
 }
 
 impl Op {
@@ -93,6 +98,7 @@ impl Op {
             Op::SelfCloneSlot { .. } => "SelfCloneSlot",
             Op::SelfDropSlot { .. } => "SelfDropSlot",
             Op::SelfDowngradeSlot { .. } => "SelfDowngradeSlot",
+            Op::SelfGetMutSlot { .. } => "SelfGetMutSlot",
         }
     }
 
@@ -129,6 +135,7 @@ impl Op {
             Op::SelfCloneSlot { idx, d } => vec![idx, d],
             Op::SelfDropSlot { idx } => vec![idx],
             Op::SelfDowngradeSlot { idx, w } => vec![idx, w],
+            Op::SelfGetMutSlot { idx } => vec![idx],
         }
     }
 
@@ -178,6 +185,7 @@ impl Op {
             "SelfCloneSlot" => { need(2)?; Op::SelfCloneSlot { idx: a[0], d: a[1] } }
             "SelfDropSlot" => { need(1)?; Op::SelfDropSlot { idx: a[0] } }
             "SelfDowngradeSlot" => { need(2)?; Op::SelfDowngradeSlot { idx: a[0], w: a[1] } }
+            "SelfGetMutSlot" => { need(1)?; Op::SelfGetMutSlot { idx: a[0] } }
             _ => return Err(format!("unknown op {name}")),
         })
     }
